@@ -102,5 +102,6 @@ pub fn gen_profile(s: &mut Src, nla: bool) -> ServerProfile {
         auto: true,
         post_activation: Vec::new(),
         pack_deactivate: s.pick(&[0u8, 0, 0, 1, 2, 3]),
+        pre_license: Vec::new(),
     }
 }
